@@ -171,7 +171,7 @@ class C10(Cfg):
                         if via_reload and "none" in (ref, out) and incomplete(vs):
                             sig = "reload-drops-room-without-group-or-admin"
                         elif via_reload and pm and po and raw_right(vs):
-                            selfbits = self_bit_positions(len(groups_known))
+                            selfbits = self_bit_positions()
                             diff_ok = True
                             for key in pm[1]:
                                 for x, y in zip(pm[1][key], po[1].get(key, [])):
